@@ -2,6 +2,7 @@ package lua
 
 import (
 	"sort"
+	"strings"
 )
 
 func OpenTable(L *LState) int {
@@ -70,19 +71,17 @@ func tableConcat(L *LState) int {
 		L.Push(emptyLString)
 		return 1
 	}
-	//TODO should flushing?
-	retbottom := L.GetTop()
+	// collected in a slice, not on the value stack: the length of the list must not be limited by
+	// the registry size
+	parts := make([]string, 0, j-i+1)
 	for ; i <= j; i++ {
 		v := tbl.RawGetInt(i)
 		if !LVCanConvToString(v) {
 			L.RaiseError("invalid value (%s) at index %d in table for concat", v.Type().String(), i)
 		}
-		L.Push(v)
-		if i != j {
-			L.Push(sep)
-		}
+		parts = append(parts, LVAsString(v))
 	}
-	L.Push(stringConcat(L, L.GetTop()-retbottom, L.reg.Top()-1))
+	L.Push(LString(strings.Join(parts, string(sep))))
 	return 1
 }
 
